@@ -1,3 +1,4 @@
+\* 3 threads x 2 aggregates x 2 commands: accepted / rejected
 CONSTANTS
   t1 = t1
   t2 = t2
